@@ -501,6 +501,17 @@ func liftedSendSites(fns []*ssa.Function) []chanSendSite {
 // value in [-1,maxID+2] that keeps its block feasible.
 func variantAllocTable(root *ssa.Function, maxID int64, pick func(t *types.Named) bool) map[int64][]string {
 	out := map[int64][]string{}
+	for v, ts := range variantAllocTypes(root, maxID, pick) {
+		for _, t := range ts {
+			out[v] = append(out[v], t.Obj().Name())
+		}
+	}
+	return out
+}
+
+// variantAllocTypes is variantAllocTable with the types themselves.
+func variantAllocTypes(root *ssa.Function, maxID int64, pick func(t *types.Named) bool) map[int64][]*types.Named {
+	out := map[int64][]*types.Named{}
 	for _, f := range closureFuncs(root, 2) {
 		atoms := map[string]bool{}
 		for _, ef := range edgeFacts(f) {
@@ -534,7 +545,7 @@ func variantAllocTable(root *ssa.Function, maxID int64, pick func(t *types.Named
 					}
 				}
 				if len(vs) == 1 {
-					out[vs[0]] = append(out[vs[0]], nt.Obj().Name())
+					out[vs[0]] = append(out[vs[0]], nt)
 					break
 				}
 			}
